@@ -180,39 +180,6 @@ theorem resolve_flag_sound (d : Disk) (f : Nat) (h : Hash) :
     (resolve (diskGet d) f h = .missing → ¬ Resolvable d h) :=
   ⟨resolve_ok_sound d f h, resolve_missing_sound d f h⟩
 
-/-! ## facts regenerated from the source on every run (T-gen) -/
-
-/-- `commit`: lookup, recurse into `childs()`, then `batch.Put` of the node, then the flush test. -/
-theorem facts_commit_is_post_order :
-    TrieDbFacts.commitSkeleton =
-      ["lookup-cached-else-return-nil", "for-childs-recurse-commit", "batch.Put-self",
-       "if-ValueSize-flush-Write-Reset", "return-nil"] := by decide
-
-/-- `Commit`: the root walk, the final `batch.Write()`, and only then `uncache`. -/
-theorem facts_uncache_after_final_write :
-    TrieDbFacts.commitTopSkeleton =
-      ["RLock", "NewBatch", "range-preimages", "db.commit-root", "batch.Write-final", "RUnlock", "Lock",
-       "reset-preimages", "uncache-root"] := by decide
-
-theorem facts_childs_ext_then_inner :
-    TrieDbFacts.childsSkeleton = ["range-n.children-append", "if-not-rawNode-gatherChildren"] := by decide
-
-/-- history is append-only: nobody calls `Dereference`, `Cap`, a `Delete` on
-    the state store, or fills the preimage table. -/
-theorem facts_history_append_only :
-    TrieDbFacts.dereferenceCallers = [] ∧ TrieDbFacts.capCallers = [] ∧
-    TrieDbFacts.stateStoreDeleteSites = [] ∧ TrieDbFacts.preimageCallers = [] := by decide
-
-/-- the leaf callback references exactly the storage root and the code hash, each behind its guard. -/
-theorem facts_leaf_callback :
-    TrieDbFacts.leafCallbackRefs =
-      [("account.Root", "account.Root != emptyData"), ("code", "code != emptyCode")] ∧
-    TrieDbFacts.storeInsertBeforeOnleaf = true ∧
-    TrieDbFacts.stateCommitSkeleton =
-      ["InsertBlob-code-if-dirty", "CommitTrie-storage", "updateAccountObject", "trie.Commit-with-leaf-callback"] := by
-  decide
-
-
 /-! ## non-vacuity: a concrete history satisfies the hypotheses used above
 
 Two storage-trie leaves `1`,`2` under a storage root `3`, a code blob `4`, and an
